@@ -29,4 +29,12 @@ CHECKS = {
         text="Every lattice point is executed on the real code; Lorentz factor, speed, shower energy, decay length (closed form and inverse-survival identity), decay altitude from explicit vectors, monotonicity along lattice lines and mid-point-quadrature convergence of the mean are checked at each.",
         note="documented constants (R=6378.1 km, c, tau0, m_tau) are trusted; nothing is claimed between alphabet points; no limit is proved for the mean",
     ),
+    "C18": dict(
+        engine="E1-lattice",
+        level="exploration",
+        design_ref="DESIGN.md §3 C18",
+        technique="small-scope exhaustive enumeration: every grid shape (1-4 axes of length 1-3) x dtype x axis names x file format; every node/mid/quarter slice; every non-decreasing row over a 5-value alphabet with every strictly-interior query, singly, in all ordered pairs/triples and concatenated; every node of every shipped table",
+        text="All grids/rows/queries of the bounded scope are executed on the real readers, writers, slicer and row interpolator and compared with a boring reference (array equality; (1-t)G[i]+tG[i+1]; piecewise-linear pre-image interval). Shipped tables are validated node by node.",
+        note="names with '/' or non-ASCII outside the alphabet; FITS big-endian accepted; one data defect in the unused nuleptonsim table is a recorded known finding",
+    ),
 }
